@@ -5,7 +5,7 @@ root = os.path.dirname(os.path.dirname(os.path.abspath(__file__)))
 props = [json.loads(l) for l in open(os.path.join(root, 'properties.jsonl'))]
 cfg = json.load(open(os.path.join(root, 'props.json')))
 hooks = subprocess.run(['git', '-C', '/repo', 'log', '--format=%H %s', '024de4b..HEAD'], capture_output=True, text=True).stdout.strip().split('\n')
-hook_commits = [l.split()[0] for l in hooks if l and 'verif hook' in l]
+hook_commits = [l.split()[0] for l in hooks if l and ('verif hook' in l or l.split(' ', 1)[1].startswith('verif:'))]
 m = {
  "version": 1,
  "setup_cmd": "./setup.sh",
